@@ -67,8 +67,13 @@ pub fn jobs(ctx: &Ctx) -> Vec<RJob> {
                             }
                         }
                         // colour pair
-                        match rng.below(5) {
+                        match rng.below(6) {
                             0 => {}
+                            5 => {
+                                // translucent BACKGROUND (alpha strictly between 0 and 255), opaque modules
+                                spec.module_color = Some(Colour::Rgb([rng.byte(), rng.byte(), rng.byte()]));
+                                spec.background = Some(Colour::Rgba([rng.byte(), rng.byte(), rng.byte(), *rng.pick(&[1u8, 64, 128, 200, 254])]));
+                            }
                             1 => {
                                 spec.background = Some(Colour::Rgba([255, 255, 255, 0]));
                             }
